@@ -92,7 +92,9 @@ func c16Generated(r *Rng, i int, palette []json.RawMessage) c16Def {
 	}
 	wh := func() string {
 		return Pick(r, []string{"@webhook", "@webhook.name", "@(webhook.items[0])", "@(upper(webhook.x) & webhook)", "@(WEBHOOK.a)", "@webhook.json", "no refs", "@contact.name",
-			"@(foreach(array(1), (webhook) => webhook))", "@(\"webhook\")", "@webhooks", "@(webhook)"})
+			"@(foreach(array(1), (webhook) => webhook))", "@(\"webhook\")", "@webhooks", "@(webhook)",
+			// rewritten expressions are printed again: long literals, escapes, numbers written unusually, lookups by number
+			"@(if(webhook.ok, \"" + strings.Repeat("long text ", 20) + "end\", \"Sorry\"))", "@(\"" + strings.Repeat("long text ", 20) + "end\" & webhook)", "@(webhook.a & \"q\\\"uote\\n\" & 007 & 1.50)", "@(webhook.items.0 .1 & webhook[\"k\"])"})
 	}
 	var actions []any
 	for k := r.Range(0, 3); k > 0; k-- {
@@ -323,6 +325,29 @@ func runC16(c *Ctx) {
 			b, _ := json.Marshal(doc)
 			defs = append(defs, c16Def{name: d.name + "+entry-lowest", data: b, version: "", feats: "stored,entry-not-topmost"})
 		}
+		// older exports carry uuid and name at the root instead of in metadata: alongside a metadata object, without one, with null
+		var doc2 map[string]any
+		if json.Unmarshal(d.data, &doc2) == nil {
+			if md, ok := doc2["metadata"].(map[string]any); ok && md["uuid"] != nil {
+				for vi, variant := range []string{"root-uuid+metadata", "root-uuid-no-metadata", "root-uuid-null-metadata"} {
+					var dv map[string]any
+					json.Unmarshal(d.data, &dv)
+					mdv := dv["metadata"].(map[string]any)
+					dv["uuid"], dv["name"] = mdv["uuid"], mdv["name"]
+					switch vi {
+					case 0:
+						delete(mdv, "uuid")
+						delete(mdv, "name")
+					case 1:
+						delete(dv, "metadata")
+					default:
+						dv["metadata"] = nil
+					}
+					b, _ := json.Marshal(dv)
+					defs = append(defs, c16Def{name: d.name + "+" + variant, data: b, version: "", feats: "stored," + variant})
+				}
+			}
+		}
 	}
 	var valid [][]byte
 	for _, d := range defs {
@@ -379,12 +404,16 @@ func runC16(c *Ctx) {
 			}
 		} else {
 			var src struct {
+				UUID     string `json:"uuid"`
 				Metadata struct {
 					UUID string `json:"uuid"`
 				} `json:"metadata"`
 				Entry string `json:"entry"`
 			}
 			json.Unmarshal(d.data, &src)
+			if src.Metadata.UUID == "" {
+				src.Metadata.UUID = src.UUID
+			}
 			u1, g1, _ := c16Graph(latest)
 			c.Count("check:M-graph-legacy")
 			if src.Metadata.UUID != "" && src.Metadata.UUID != u1 {
